@@ -737,7 +737,11 @@ func allocBurst(s *shardSet) {
 }
 
 func init() {
-	profileFns["slice"] = driveSlice
+	profileFns["slice"] = func(s *shardSet, rng *rand.Rand, thorough bool) ([]string, map[string]int) {
+		types, extra := driveSlice(s, rng, thorough)
+		driveHugeSlice(s, rng, thorough)
+		return types, extra
+	}
 	withExtremes := func(f func(*shardSet, *rand.Rand, bool) ([]string, map[string]int)) func(*shardSet, *rand.Rand, bool) ([]string, map[string]int) {
 		return func(s *shardSet, rng *rand.Rand, thorough bool) ([]string, map[string]int) {
 			types, extra := f(s, rng, thorough)
@@ -752,7 +756,11 @@ func init() {
 		driveRaggedAppend(s, rng, thorough)
 		return types, extra
 	})
-	profileFns["appendsample"] = withExtremes(driveAppendSample)
+	profileFns["appendsample"] = withExtremes(func(s *shardSet, rng *rand.Rand, thorough bool) ([]string, map[string]int) {
+		types, extra := driveAppendSample(s, rng, thorough)
+		driveHugeSlice(s, rng, thorough)
+		return types, extra
+	})
 	profileFns["io"] = withExtremes(driveIO)
 	profileFns["channel"] = withExtremes(driveChannel)
 	profileFns["alloc"] = func(s *shardSet, rng *rand.Rand, thorough bool) ([]string, map[string]int) {
